@@ -10,6 +10,7 @@
     (3) Whole graph-API histories: final state and all results are independent of every oracle. *)
 From Coq Require Import List NArith String Permutation.
 From WacV Require Import Graph HashSiteTypes HashSites Determinism DeterminismSpec DeterminismProofs DeterminismInv.
+From WacV Require Import Wiring WiringSpec EncodeModel EncodeOrder EncodeOrderProofs ToposortOrder.
 Import ListNotations.
 
 (** * 1. the tie *)
@@ -149,3 +150,86 @@ Theorem conflict_first_node_order_indep : forall compat v1 v1' v2 v2' dflt,
   conflict_first compat v1 v2 dflt = conflict_first compat v1' v2' dflt.
 Proof. exact conflict_first_order_indep. Qed.
 Print Assumptions conflict_first_node_order_indep.
+
+(** * 7. the tree as it is now: every site the translator finds is order-irrelevant, and its reason is either a model
+      function with an order-independence theorem (sections 2-4, 8) or the explicit by-inspection label DebugNotRendered *)
+Theorem current_sites_order_irrelevant_and_justified :
+  forall s, In s found_sites ->
+    classes_of s <> [] /\ forall c, In c (classes_of s) -> class_is_relevant c = false /\ class_justified c = true.
+Proof. exact current_sites_order_irrelevant_and_justified. Qed.
+Print Assumptions current_sites_order_irrelevant_and_justified.
+
+(** * 8. the encoder (structural model [EncodeModel] of C02/C03, here with oracles for every hash-ordered container
+      that [CompositionGraphEncoder] consults: explicit_imports, instantiations, encoded, node_indexes, packages,
+      implicit_args) *)
+(** whatever the oracles do, the item log (definitions, imports, instantiations, aliases, exports, in order), the
+    names section and the error are those of the structural encoder model *)
+Theorem encode_oracle_model_agrees : forall e u g dc tau o,
+    valid_eoracle o -> encode_o e u g dc tau o = summarize (encode_model e u g dc tau).
+Proof. exact encode_o_canonical. Qed.
+Print Assumptions encode_oracle_model_agrees.
+
+(** (1) ... hence the same for any two oracles, including the payload (first, second) of the merge-conflict error *)
+Theorem encode_order_oracle_indep : forall e u g dc tau o1 o2,
+    valid_eoracle o1 -> valid_eoracle o2 -> encode_obs e u g dc tau o1 = encode_obs e u g dc tau o2.
+Proof. exact encode_order_oracle_indep. Qed.
+Print Assumptions encode_order_oracle_indep.
+
+(** a representation oracle that merely permutes maps with distinct keys (what a HashMap is) answers alike *)
+Theorem permuted_maps_answer_alike : forall st st',
+    e_log st = e_log st' -> e_reg st = e_reg st' -> e_dedup st = e_dedup st' -> e_impl st = e_impl st' ->
+    Permutation (e_nidx st) (e_nidx st') -> NoDup (map fst (e_nidx st)) ->
+    Permutation (e_pkgs st) (e_pkgs st') -> NoDup (map fst (e_pkgs st)) -> est_equiv st st'.
+Proof. exact permuted_state_equiv. Qed.
+Print Assumptions permuted_maps_answer_alike.
+
+(** ... and the premise holds for the encoder's own maps: when the model encoder succeeds, [node_indexes] and
+    [packages] end with pairwise distinct keys (they only ever grow at the front, so also at every earlier moment) *)
+Theorem encoder_maps_have_distinct_keys : forall e u g dc tau st ns,
+    encode_model e u g dc tau = ROk (st, ns) -> maps_distinct st.
+Proof. exact encoder_maps_have_distinct_keys. Qed.
+Print Assumptions encoder_maps_have_distinct_keys.
+
+(** (3) histories, then encoding *)
+Theorem history_then_encode_oracle_indep : forall e u dc tau ops o1 o2 eo1 eo2,
+    valid_oracle o1 -> valid_oracle o2 -> valid_eoracle eo1 -> valid_eoracle eo2 ->
+    encode_obs e u (fst (run_with o1 u ops)) dc tau eo1 = encode_obs e u (fst (run_with o2 u ops)) dc tau eo2.
+Proof. exact history_then_encode_oracle_indep. Qed.
+Print Assumptions history_then_encode_oracle_indep.
+
+(** * 9. what fixes the emission order ([toposort]) *)
+(** (2) as planned -- "for nodes with no path between them the emission order is the node-index order" -- is FALSE
+    (a dependant, an unrelated node, then the base type: the unrelated node 1 is emitted before node 0); the real
+    encoder agrees (replayed by the check).  The property does not need it: the order is a function of the graph. *)
+Theorem toposort_is_index_ordered_for_independent_nodes_refuted :
+  exists g ord a b, toposort g = Some ord /\ In a (node_ids g) /\ In b (node_ids g) /\ a < b /\
+                    ~ reach g a b /\ ~ reach g b a /\ before ord b a.
+Proof. exact independent_nodes_index_order_refuted. Qed.
+Print Assumptions toposort_is_index_ordered_for_independent_nodes_refuted.
+
+(** what does hold: a node that no node of larger index reaches is emitted before every node of larger index *)
+Theorem toposort_is_index_ordered_for_unreached_nodes : forall g ord a b,
+    toposort g = Some ord -> In a (node_ids g) -> In b (node_ids g) -> a < b ->
+    (forall c, In c (node_ids g) -> a < c -> ~ reach g c a) -> before ord a b.
+Proof. exact toposort_unreached_before_larger. Qed.
+Print Assumptions toposort_is_index_ordered_for_unreached_nodes.
+
+(** many same-rank independent nodes: nodes without incoming edges come in index order *)
+Theorem toposort_sources_in_index_order : forall g ord a b,
+    toposort g = Some ord -> In a (node_ids g) -> In b (node_ids g) -> a < b ->
+    (forall ed, In ed (edges g) -> etgt ed <> a) -> before ord a b.
+Proof. exact sources_in_index_order. Qed.
+Print Assumptions toposort_sources_in_index_order.
+
+(** nothing defined after its dependants: the emission order is exactly the index order *)
+Theorem toposort_forward_graph_in_index_order : forall g ord,
+    toposort g = Some ord -> (forall ed, In ed (edges g) -> esrc ed < etgt ed) -> ord = node_ids g.
+Proof. exact forward_graph_emitted_in_index_order. Qed.
+Print Assumptions toposort_forward_graph_in_index_order.
+
+(** non-vacuity of the encoder oracles: reversing every iteration is valid *)
+Example rev_eoracle_valid :
+  valid_eoracle {| eo_expl := @rev _; eo_expl_c := @rev _; eo_inst_c := @rev _; eo_encoded := fun l => l; eo_state := fun _ st => st |}.
+Proof.
+  repeat split; intros; cbn; try (apply Permutation_sym, Permutation_rev); reflexivity.
+Qed.
